@@ -712,13 +712,19 @@ func ruleP4e(c *Ctx) {
 			}
 			name := ""
 			if cc.IsInvoke() {
-				name = cc.Method.Name()
+				// driver calls: mutations of the store are P9's business; reads do not drop rows
+				return
 			} else if f := cc.StaticCallee(); f != nil {
 				name = f.Name()
+				// only operations of the planner, the table and the statement can drop or keep rows
+				pkg := ""
+				if f.Pkg != nil {
+					pkg = f.Pkg.Pkg.Path()
+				}
+				if pkg != modPath+"/bql/planner" && pkg != modPath+"/bql/table" {
+					return
+				}
 			} else {
-				return
-			}
-			if isBuiltinCall(cc, name) {
 				return
 			}
 			knownFalse := false
